@@ -41,7 +41,7 @@ ROWS4 = [
 ]
 LETTERS = {3: ['a', 'b', '<BLANK>'], 4: ['a', 'b', 'c', '<BLANK>']}
 KS = [1, 2, 3, 4, 100]
-SELS = ['default', 'all']
+SELS = ['default', 'all', 'all_desc']          # 'all_desc': a non-pruning selector that lists the symbols by decreasing score (unsorted indices)
 BOUNDS = {'quick': dict(T3=4, T4=3, Tunnorm=2), 'thorough': dict(T3=5, T4=4, Tunnorm=2)}
 BOUNDS['replay'] = BOUNDS['quick']
 EPS = 1e-9
@@ -58,6 +58,14 @@ def to_log(M):
 
 def select_all(logits):
     return (np.arange(logits.shape[0]),)
+
+
+def select_all_desc(logits):
+    return (np.argsort(-logits, kind='stable'),)
+
+
+def selector_kw(sel):
+    return {} if sel == 'default' else {'relevant_logits_selector': select_all if sel == 'all' else select_all_desc}
 
 
 def setup(tier):
@@ -91,7 +99,13 @@ def shards(tier):
     for T in LONG_T[tier if tier in LONG_T else 'quick']:
         for k in range(len(LONG_KINDS)):
             out.append({'long': T, 'kind': k})
+    for first in range(len(ROWS3)):
+        out.append({'wide': first})          # an output layer of 33 000 symbols (indices beyond the int16 range)
     return out
+
+
+WIDE_C = 33000
+WIDE_COLS = [100, 32900, WIDE_C - 1]        # 'a', 'b', blank
 
 
 LONG_T = {'quick': [260, 300], 'thorough': [260, 300, 520]}      # lines with more than 255 frames (forward-recursion reference)
@@ -114,6 +128,14 @@ def run_shard(shard, ctx, tier):
     if 'long' in shard:
         guarded_check(mod, {'long': shard['long'], 'kind': shard['kind']}, ctx)
         return
+    if 'wide' in shard:
+        guarded_check(mod, {'wide': [shard['wide']]}, ctx)
+        for r2 in range(len(ROWS3)):
+            guarded_check(mod, {'wide': [shard['wide'], r2]}, ctx)
+            if tier == 'thorough' or r2 in (0, 1, 3):
+                for r3 in (0, 1, 3, 4):
+                    guarded_check(mod, {'wide': [shard['wide'], r2, r3]}, ctx)
+        return
     if shard.get('unnorm'):
         for C in (3, 4):
             R = len(rows_for(C))
@@ -131,10 +153,51 @@ def run_shard(shard, ctx, tier):
 
 def decode(C, lp, k, sel):
     from pero_ocr.decoding.decoders import CTCPrefixLogRawNumpyDecoder
-    kw = {} if sel == 'default' else {'relevant_logits_selector': select_all}
+    kw = selector_kw(sel)
     dec = CTCPrefixLogRawNumpyDecoder(LETTERS[C], k, **kw)
     boh = dec(lp.copy())
     return [(h.transcript, float(h.vis_sc)) for h in boh]
+
+
+_WIDE_LETTERS = []
+
+
+def check_wide(case, ctx):
+    """the three-symbol matrices embedded in a 33 000-symbol output layer: 'a' at index 100, 'b' at index 32 900, blank last"""
+    from pero_ocr.decoding.decoders import CTCPrefixLogRawNumpyDecoder
+    if not _WIDE_LETTERS:
+        _WIDE_LETTERS.extend([chr(0x10000 + i) for i in range(WIDE_C - 1)] + ['<BLANK>'])
+    M3 = [ROWS3[i] for i in case['wide']]
+    T = len(M3)
+    P = np.zeros((T, WIDE_C))
+    for t in range(T):
+        for k, c in enumerate(WIDE_COLS):
+            P[t, c] = M3[t][k]
+    with np.errstate(divide='ignore'):
+        lp = np.log(P)
+    truth = {''.join(_WIDE_LETTERS[WIDE_COLS[i]] for i in l): math.log(p) for l, p in ctc_brute(M3, 2).items()}
+    ctx.state(('wide', tuple(case['wide'])))
+    ctx.tag('output-layer-beyond-int16')
+    K = f'{ID}/C33000'
+    for k in (1, 2, 100):
+        dec = CTCPrefixLogRawNumpyDecoder(_WIDE_LETTERS, k)
+        hyps = [(h.transcript, float(h.vis_sc)) for h in dec(lp.copy())]
+        ctx.executed()
+        name = lambda t: ''.join('ab'[[_WIDE_LETTERS[c] for c in WIDE_COLS[:2]].index(ch)] if ch in (_WIDE_LETTERS[100], _WIDE_LETTERS[32900]) else '?' for ch in t)
+        desc = f'rows {M3} on symbols {WIDE_COLS} of {WIDE_C}, k={k}: {[(name(t), round(v, 4)) for t, v in hyps]}'
+        if len({t for t, _ in hyps}) != len(hyps):
+            ctx.violation('hypotheses-distinct', f'{K}/duplicates', desc)
+            return
+        bad = [(name(t), v, truth.get(t, NEG_INF)) for t, v in hyps if v > truth.get(t, NEG_INF) + EPS]
+        if bad:
+            ctx.violation('never-over-counts', f'{K}/over-count', f'{desc}; (transcript, score, true log-probability) {bad}')
+            return
+        if k == 100 and all(min(x for x in r if x > 0) > 1e-3 for r in M3):
+            got = dict(hyps)
+            if set(got) != set(truth) or any(abs(got[t] - truth[t]) > EPS for t in truth):
+                ctx.violation('exact-when-unpruned', f'{K}/unpruned-differs', f'{desc}; truth {sorted((name(t), round(v, 4)) for t, v in truth.items())}')
+                return
+    ctx.outcome(('wide', len(truth)))
 
 
 def check_long(case, ctx):
@@ -156,7 +219,7 @@ def check_long(case, ctx):
             memo[key] = ctc_forward_log(logP, list(labels), 2)
         return memo[key]
     for k, sel in configs:
-        kw = {} if sel == 'default' else {'relevant_logits_selector': select_all}
+        kw = selector_kw(sel)
         dec = CTCPrefixLogRawNumpyDecoder(LETTERS[3], k, **kw)
         hyps = [(h.transcript, float(h.vis_sc)) for h in dec(lp.copy())]
         ctx.executed()
@@ -200,7 +263,7 @@ def check_unnorm(case, ctx):
     ctx.state(('unnorm', C, tuple(case['rows']), pos, var))
     for k in (1, 100):
         for sel in SELS:
-            kw = {} if sel == 'default' else {'relevant_logits_selector': select_all}
+            kw = selector_kw(sel)
             dec = CTCPrefixLogRawNumpyDecoder(LETTERS[C], k, **kw)
             ctx.executed()
             try:
@@ -230,6 +293,8 @@ def check_case(case, ctx):
         return check_unnorm(case, ctx)
     if 'long' in case:
         return check_long(case, ctx)
+    if 'wide' in case:
+        return check_wide(case, ctx)
     C = case['C']
     RA = rows_for(C)
     M = [RA[i] for i in case['rows']]
@@ -340,5 +405,5 @@ def describe(tier):
                         'scores are compared within 1e-9', 'blank is the last symbol'],
         'min_nontrivial': 100,
         'required_tags': ['beam-pruned', 'prefix-joining', 'all-pruned-shortcut', 'selector-pruned', 'unpruned-nodes',
-                          'unnormalised-variants', 'tie-at-beam-boundary', 'float32-and-reused-decoder', 'more-than-255-frames'],
+                          'unnormalised-variants', 'tie-at-beam-boundary', 'float32-and-reused-decoder', 'more-than-255-frames', 'output-layer-beyond-int16'],
     }
